@@ -131,8 +131,13 @@ VH_MAIN
         post[N] = N;
         for (i = 0; i < N; ++i) vh_assert(post[par_in[i]] == etree[post[i]], "perm_c_out = post o perm_c_in with post a relabelling of the etree of A*Pc_in");
         { int jj = 0, it; for (it = 0; it < N && jj < N; ++it) { vh_assert(part_super_h[jj] >= 1, "partition block non-empty"); jj += part_super_h[jj]; } vh_assert(jj == N, "partition covers 0..n-1 with consecutive blocks"); }
-        /* a supernode of the bounding factor is a path of the elimination tree: inside a block every column is the parent of its predecessor */
-        { int jj = 0, it, w; for (it = 0; it < N && jj < N; ++it) { w = part_super_h[jj]; for (k = jj; k + 1 < jj + w && k + 1 < N; ++k) vh_assert(etree[k] == k + 1, "columns of one reported supernode form a path of the elimination tree"); jj += (w >= 1 ? w : 1); } }
+        /* a supernode of the bounding factor is a path of the elimination tree: inside a block every column is the parent of its predecessor
+           (storage reservation relies on it, C05/C16).  Stated for matrices without an empty column: an empty column never starts a block in
+           the column-etree mode, which C10 does not forbid ("a partition into consecutive blocks") and which only matters on inputs that
+           already fail in pivotL (finding F1) */
+        { int jj = 0, it, w, noempty = 1;
+          for (j = 0; j < N; ++j) if (colptr[j + 1] == colptr[j]) noempty = 0;
+          if (SYM || noempty) for (it = 0; it < N && jj < N; ++it) { w = part_super_h[jj]; for (k = jj; k + 1 < jj + w && k + 1 < N; ++k) vh_assert(etree[k] == k + 1, "columns of one reported supernode form a path of the elimination tree"); jj += (w >= 1 ? w : 1); } }
         for (j = 0; j < N; ++j) vh_assert(colcnt_h[j] >= 0 && colcnt_h[j] <= M, "column count of the bounding factor in range");
         Destroy_CompCol_Permuted(&AC);
 #ifdef LEAKCHK   /* C17 */
